@@ -128,7 +128,10 @@ func run(r *h.Run, idx int, pol policy) {
 	b.Mon.Inner.ClientInflightMessages = pol.Window
 	if pol.IdleFirst {
 		// a subscriber that acknowledges within milliseconds must never be hit by the token timeout
-		b.Mon.Inner.ClientTokenTimeout = 600 * time.Millisecond
+		// (3 s: a stop-the-world pause of the garbage collector under the race
+		// detector was measured at 0.6 s; it must not be able to look like a
+		// subscriber that withholds acknowledgements)
+		b.Mon.Inner.ClientTokenTimeout = 3 * time.Second
 	}
 	defer b.Shutdown()
 	fail := func(key, msg string) {
@@ -166,7 +169,7 @@ func run(r *h.Run, idx int, pol policy) {
 		return
 	}
 	if pol.IdleFirst {
-		time.Sleep(800 * time.Millisecond) // the connection is older than the token timeout when traffic starts
+		time.Sleep(3300 * time.Millisecond) // the connection is older than the token timeout when traffic starts
 	}
 	// publisher stream (own goroutine: Backend.Publish blocks while the subscriber's queue is full)
 	var sent []string
